@@ -8,7 +8,7 @@ from worlds import chartgen
 PID = 'C03'
 SCHEDULE_DEPENDENT = False
 RULE = ('seeded state trees (general stratum: all shapes; deep stratum: chains to depth 16 with initial transitions '
-        'that skip several levels), every state as start state, every host and build; oracle: the ENTRY/INIT '
+        'that skip several levels), every state as start state, every host and build; in 30% of the runs on synchronous hosts the chart object is started again at another state after it has been running; oracle: the ENTRY/INIT '
         'invocations and entry/init actions recorded inside the handlers during start_at equal the reference start '
         'sequence (outside-in entries, then the init chain), nothing is exited, resting state = last init target. '
         'Non-trivial = start path of >= 2 entries or >= 1 initial transition; distinct = distinct (depth of start '
@@ -29,6 +29,11 @@ def generate(seed, stratum, tier):
   else:
     kw = {'p_react': 0.2}
   sc = cc.gen_chart_scenario(rng, spec_kw=kw, nops=(0, 3))
+  if sc['host'] in ('plain', 'instrumented', 'queued') and rng.random() < 0.3:
+    # the same chart object is started again, at another state, after it has been running
+    names = [st['name'] for st in sc['spec']['states']]
+    for _ in range(rng.randrange(1, 3)):
+      sc['ops'].insert(rng.randrange(len(sc['ops']) + 1), ['restart', rng.choice(names)])
   return sc
 
 
